@@ -98,7 +98,12 @@ class Engine:
     def _find(self, qualname):
         scope, node = self.tree.body, None
         for p in qualname.split("."):
-            node = next((n for n in scope if isinstance(n, (ast.FunctionDef, ast.ClassDef)) and n.name == p), None)
+            if "#" in p:        # f#1: the second function named f anywhere inside the enclosing definition (defs nested in if/elif branches)
+                nm, k = p.split("#"); cands = [n for n in ast.walk(node) if isinstance(n, ast.FunctionDef) and n.name == nm and n is not node]
+                cands.sort(key=lambda n: (n.lineno, n.col_offset))
+                node = cands[int(k)] if int(k) < len(cands) else None
+            else:
+                node = next((n for n in scope if isinstance(n, (ast.FunctionDef, ast.ClassDef)) and n.name == p), None)
             if node is None: raise Stale(f"{qualname}: not found")
             scope = node.body
         return node
@@ -209,6 +214,9 @@ class Engine:
     def arr_read(self, st, a, idx, line, check=True):
         """1-D read with numba wrap-around + bounds obligation"""
         n = self.arr_len(st, a)
+        pr = getattr(self, "prange", None)
+        if pr is not None and check and not self.in_spec and a.ref is not None and a.ref in pr["written_refs"]:
+            self.emit(st, "race", idx == st.env[pr["var"]].z, line, f"[read {st.heap.meta[a.ref][3]}]")     # an array written in the parallel loop is read only at the own slot
         if check and not self.in_spec:
             self.emit(st, "bounds", z3.And(idx >= -n, idx < n), line)
             if a.ref is not None and st.heap.meta[a.ref][3] in self.contract.get("nonneg_index", ()): self.emit(st, "negindex", idx >= 0, line, f"[{st.heap.meta[a.ref][3]}]")
@@ -254,6 +262,7 @@ class Engine:
         if e.id in st.env: return st.env[e.id]
         if e.id == "MIN_INT": return Val("int", z3.IntVal(MIN_INT))
         if e.id in ("True", "False"): return Val("bool", z3.BoolVal(e.id == "True"))
+        if e.id in ("ScalarFuncs", "NumbaReductionOps"): return Val("str", name=e.id)
         raise Stale(f"unknown name {e.id!r} @L{getattr(e, 'lineno', 0)}")
 
     def ev_Attribute(self, st, e):
@@ -286,13 +295,23 @@ class Engine:
         return Val("bool", z3.And(*vs) if is_and else z3.Or(*vs))
 
     def ev_IfExp(self, st, e):
-        c = self.truthy(self.ev(st, e.test)); a = self.ev(st, e.body); b = self.ev(st, e.orelse)
+        c = z3.simplify(self.truthy(self.ev(st, e.test)))
+        if z3.is_true(c): return self.ev(st, e.body)
+        if z3.is_false(c): return self.ev(st, e.orelse)
+        a = self.ev(st, e.body); b = self.ev(st, e.orelse)
         if a.kind != b.kind:
             if {a.kind, b.kind} <= {"int", "float"}: return Val("float", z3.If(c, self.to_float(a), self.to_float(b)))
             raise Unsupported("ifexp kinds")
         return Val(a.kind, z3.If(c, a.z, b.z))
 
     def arith(self, st, op, a, b, line, right_node=None):
+        if a.kind == "arr" and b.kind == "arr" and op is ast.Add and a.elem == b.elem == "int" and a.ndim == b.ndim == 1:
+            na, nb_ = self.arr_len(st, a), self.arr_len(st, b)
+            if not self.in_spec: self.emit(st, "shape", na == nb_, line, "[elementwise +]")
+            t = self.fc("sumarr", z3.ArraySort(I, I)); j = z3.Int(f"j?{next(self.fresh)}")
+            st.pc.append(z3.ForAll([j], z3.Implies(z3.And(j >= 0, j < na), z3.Select(t, j) == self.arr_read(st, a, j, line, check=False) + self.arr_read(st, b, j, line, check=False)), patterns=[z3.Select(t, j)]))
+            ref = st.heap.new("int", "int64", (na,), t, "sumarr")
+            return Val("arr", ref=ref, elem="int", dtype="int64")
         if a.kind == "bool": a = Val("int", z3.If(a.z, 1, 0))
         if b.kind == "bool": b = Val("int", z3.If(b.z, 1, 0))
         sq = op is ast.Pow and isinstance(right_node, ast.Constant) and right_node.value == 2
@@ -409,6 +428,13 @@ class Engine:
             i = self.ev(st, e.slice)
             if i.kind != "int": raise Unsupported("non-int index")
             return Val(base.elem, self.arr_read(st, base, i.z, e.lineno))
+        if base.kind == "chunks" and isinstance(e.slice, ast.Slice):
+            sl = e.slice
+            if sl.step is not None or sl.upper is not None or sl.lower is None: raise Unsupported("slice of a list of arrays other than [k:]")
+            lo = z3.simplify(self.ev(st, sl.lower).z)
+            if not z3.is_int_value(lo) or lo.as_long() < 0: raise Unsupported("list slice with a symbolic or negative start")
+            k = lo.as_long(); ln, term = base.items[0], base.term
+            return Val("chunks", z=z3.If(base.z - k > 0, base.z - k, 0), items=((lambda c, ln=ln, k=k: ln(c + k)),), term=(lambda c, term=term, k=k: term(c + k)), elem=base.elem, dtype=base.dtype)
         if base.kind == "chunks":
             c = self.ev(st, e.slice)
             if not self.in_spec: self.emit(st, "bounds", z3.And(c.z >= 0, c.z < base.z), e.lineno, "[chunk]")      # numba typed lists raise IndexError; negative would wrap
@@ -424,6 +450,8 @@ class Engine:
         fname = ast.unparse(e.func)
         if self.in_spec and fname in ("forall", "exists", "implies", "old", "ite"): return self.spec_call(st, fname, e)
         if fname in ("enumerate", "zip"): return Val("iter", name=fname, items=(e,))
+        if fname == "isinstance" and len(e.args) == 2 and ast.unparse(e.args[1]) == "np.ndarray":
+            return Val("bool", z3.BoolVal(self.ev(st, e.args[0]).kind == "arr"))
         args = [self.ev(st, a) for a in e.args]
         kwargs = {k.arg: self.ev(st, k.value) for k in e.keywords}
         if fname == "len":
@@ -431,6 +459,7 @@ class Engine:
             if a.kind == "arr": return Val("int", self.arr_len(st, a))
             if a.kind == "chunks": return Val("int", a.z)
         if fname == "is_null": return Val("bool", self.is_null(args[0]))
+        if fname == "getattr" and len(args) == 2 and args[1].kind == "func": return args[1]      # getattr(ScalarFuncs, name): the name parameter is instantiated as the step function it names
         if fname == "np.isnan": return Val("bool", f_isnan(self.to_float(args[0])))
         if fname == "abs":
             a = args[0]
@@ -504,6 +533,7 @@ class Engine:
 
     def call_contract(self, st, fname, args, kwargs, line):
         cc = self.callees[fname]
+        if callable(cc): cc = cc({**dict(zip(cc.params, args)), **kwargs})       # contract chosen by the None-ness of optional arguments, like the instantiations
         env = dict(zip(cc["params"], args)); env.update(kwargs)
         for p, d in cc.get("defaults", {}).items(): env.setdefault(p, d)
         for g, expr in self.contract.get("call_ghost", {}).get(fname, {}).items():
@@ -521,7 +551,10 @@ class Engine:
             self.emit(st, "pre", self.spec(cst, r), line, f"[{fname}.{j}]")
         results = []
         for k, kind in enumerate(cc["returns"]):
-            results.append(Val(kind, self.fc(f"{fname}_r{k}", sort_of(kind))))
+            if kind.startswith("arr:"):
+                _, elem, dtype = kind.split(":"); n = self.ev_spec_term(cst, cc["result_len"][k])
+                ref = st.heap.new(elem, dtype, (n,), None, f"{fname}_r{k}"); results.append(Val("arr", ref=ref, elem=elem, dtype=dtype))
+            else: results.append(Val(kind, self.fc(f"{fname}_r{k}", sort_of(kind))))
         rv = results[0] if len(results) == 1 else Val("tuple", items=tuple(results))
         cst.env["result"] = rv
         for k, r_ in enumerate(results): cst.env[f"result{k}"] = r_
@@ -590,6 +623,11 @@ class Engine:
     def store(self, st, arr, idxs, val, line):
         if arr.ref is None: raise Unsupported("store into immutable array")
         elem, dtype, ghost, label = st.heap.meta[arr.ref]
+        pr = getattr(self, "prange", None)
+        if pr is not None and not ghost and arr.ref in pr["refs_at_head"] and not self.in_spec:
+            # nb.prange: distinct iterations may run concurrently; writes to an array that exists outside the loop are race-free iff each iteration
+            # writes only the slot named by its own loop index (slots of different iterations are then disjoint)
+            self.emit(st, "race", idxs[0] == st.env[pr["var"]].z, line, f"[{label}]")
         if not ghost and self.ghost_mode: raise Unsupported("ghost code writes program array")
         z = self.coerce(val, elem) if val.kind != elem else val.z
         if elem == "int" and INT_RANGES.get(dtype): lo, hi = INT_RANGES[dtype]; self.emit(st, "overflow", z3.And(z >= lo, z <= hi), line, f"[{label}:{dtype}]")
@@ -781,7 +819,12 @@ class Engine:
         for nme in sorted(self.assigned_names(s.body)):
             v = st.env.get(nme)
             if v is not None and v.kind in ("arr", "chunks") and nme not in rebind:
-                raise Unsupported(f"array-valued local {nme!r} is re-assigned inside loop {o} and live across iterations: needs a 'rebind' clause")
+                # the local is bound to a NEW array in every iteration (combined = reduce_array_pair(combined, ...)): at the loop head it is an arbitrary array the
+                # invariant describes. Sound only if nothing is written through the name inside the loop (a fresh reference cannot model aliasing with in-place writes).
+                if v.kind != "arr" or v.ndim != 1 or nme in arrays or not lc.get("havoc_arrays") or nme not in lc["havoc_arrays"]:
+                    raise Unsupported(f"array-valued local {nme!r} is re-assigned inside loop {o} and live across iterations: needs a 'rebind' or 'havoc_arrays' clause (and no store through it)")
+                ln = self.fc(f"len_{nme}", I); h.pc.append(ln >= 0)
+                ref = h.heap.new(v.elem, v.dtype, (ln,), None, nme); h.env[nme] = Val("arr", ref=ref, elem=v.elem, dtype=v.dtype)
         for nme, expr in rebind.items():
             self.emit(st, "rebind", self.same_view(st.env[nme], self.ev_spec_val(st, expr)), s.lineno, f"[loop{o}.{nme}.init]")
         for nme, expr in rebind.items(): h.env[nme] = self.ev_spec_val(h, expr)
@@ -797,7 +840,17 @@ class Engine:
         for j, lem in enumerate(lc.get("lemmas", [])):
             g = self.spec(b, lem); self.emit(b, "lemma", g, s.lineno, f"[loop{o}.{j}]"); b.pc.append(g)
         outs, exits = [], []
-        for kind, e_st, val in self.run_block(b, s.body):
+        is_prange = isinstance(s.iter, ast.Call) and ast.unparse(s.iter.func) == "nb.prange" and getattr(self, "prange", None) is None and isinstance(s.target, ast.Name)
+        if is_prange:
+            written = set()
+            for a in arrays:
+                v = h.env.get(a)
+                if v is not None and v.kind == "arr" and v.ref is not None: written.add(v.ref)
+            self.prange = {"var": s.target.id, "refs_at_head": set(h.heap.arr.keys()), "written_refs": written}
+        try: body_outs = self.run_block(b, s.body)
+        finally:
+            if is_prange: self.prange = None
+        for kind, e_st, val in body_outs:
             if kind in ("normal", "continue"):
                 for nme in sorted(names):
                     v0, v1 = h.env.get(nme), e_st.env.get(nme)
